@@ -45,7 +45,10 @@ _exotic_ok = st.sampled_from([c for c in EXOTIC if c >= " " and c not in "\ud83d
 
 def _quoted():
     piece = st.one_of(_plain_piece, _plain_piece, _escape_piece, _exotic_ok)
-    return st.lists(piece, max_size=6).map(lambda ps: '"' + "".join(ps) + '"')
+    blank = st.sampled_from(['" "', '"  "', '"\t"', '" \t "', '""', '"\\t"', '"\\n"', '" \\n "', '"\u00a0"', '"\u3000 "'])   # blank-only contents
+    return st.one_of(st.lists(piece, max_size=6).map(lambda ps: '"' + "".join(ps) + '"'),
+                     st.lists(piece, max_size=6).map(lambda ps: '"' + "".join(ps) + '"'),
+                     st.lists(piece, max_size=6).map(lambda ps: '"' + "".join(ps) + '"'), blank)
 
 
 def _block():
